@@ -88,6 +88,39 @@ func pkgName(rel string) (string, error) {
 	return "", fmt.Errorf("no Go files in %s", dir)
 }
 
+// nativeMode is set while building the native replay binary: native-only stub
+// files are included and the functions they wrap are renamed in a copy of the
+// current source.
+var nativeMode bool
+
+// nativeRewrites: file (relative to /repo) -> function names renamed to
+// verifReal<Name> in the native build so that a native_*.go stub can wrap them.
+// Regenerated from the current source on every run; each definition must be
+// found exactly once.
+var nativeRewrites = map[string][]string{
+	"formula/formula.go": {"CalculatePurchaseReturn", "CalculatePurchaseAmount", "CalculateSaleReturn", "CalculateSaleAmount"},
+}
+
+func applyNativeRewrites(files map[string][]byte) error {
+	for rel, names := range nativeRewrites {
+		p := filepath.Join(repoDir, rel)
+		b, err := os.ReadFile(p)
+		if err != nil {
+			return err
+		}
+		src := string(b)
+		for _, n := range names {
+			old := "func " + n + "("
+			if strings.Count(src, old) != 1 {
+				return fmt.Errorf("native rewrite: definition of %s not found exactly once in %s", n, rel)
+			}
+			src = strings.Replace(src, old, "func verifReal"+n+"(", 1)
+		}
+		files[p] = []byte(src)
+	}
+	return nil
+}
+
 // harnessFiles returns virtual path -> content for package rel.
 func harnessFiles(rel string) (map[string][]byte, []string, error) {
 	out := map[string][]byte{}
@@ -101,6 +134,9 @@ func harnessFiles(rel string) (map[string][]byte, []string, error) {
 	for _, e := range ents {
 		if !strings.HasSuffix(e.Name(), ".go") {
 			continue
+		}
+		if strings.HasPrefix(e.Name(), "native_") && !nativeMode {
+			continue // native-only stubs (they redefine functions the engine intercepts)
 		}
 		b, err := os.ReadFile(filepath.Join(hdir, e.Name()))
 		if err != nil {
@@ -124,10 +160,34 @@ func harnessFiles(rel string) (map[string][]byte, []string, error) {
 	return out, funcs, nil
 }
 
-func loadEngine(pkgs []string) (*gosym.Engine, error) {
+// allHarnessPkgs lists every package directory that has harness/accessor files.
+func allHarnessPkgs() []string {
+	var out []string
+	root := filepath.Join(verifDir, "harness")
+	filepath.Walk(root, func(p string, info os.FileInfo, err error) error {
+		if err != nil || info.IsDir() || !strings.HasSuffix(p, ".go") {
+			return nil
+		}
+		rel, _ := filepath.Rel(root, filepath.Dir(p))
+		if rel != "." && (len(out) == 0 || out[len(out)-1] != rel) {
+			for _, o := range out {
+				if o == rel {
+					return nil
+				}
+			}
+			out = append(out, rel)
+		}
+		return nil
+	})
+	sort.Strings(out)
+	return out
+}
+
+// allOverlayFiles returns the overlay for every harness package (accessor
+// methods of one package are used by harnesses of another).
+func allOverlayFiles() (map[string][]byte, error) {
 	overlay := map[string][]byte{}
-	var patterns []string
-	for _, rel := range pkgs {
+	for _, rel := range allHarnessPkgs() {
 		files, _, err := harnessFiles(rel)
 		if err != nil {
 			return nil, err
@@ -135,10 +195,21 @@ func loadEngine(pkgs []string) (*gosym.Engine, error) {
 		for k, v := range files {
 			overlay[k] = v
 		}
+	}
+	return overlay, nil
+}
+
+func loadEngine(pkgs []string) (*gosym.Engine, error) {
+	overlay, err := allOverlayFiles()
+	if err != nil {
+		return nil, err
+	}
+	var patterns []string
+	for _, rel := range pkgs {
 		patterns = append(patterns, "./"+rel)
 	}
-	e := gosym.NewEngine()
-	e.ModulePath = modulePath
+	e := gosym.NewEngine(modulePath)
+	e.Progress = os.Getenv("VERIF_PROGRESS") != ""
 	if w := os.Getenv("VERIF_WORKERS"); w != "" {
 		if n, err := strconv.Atoi(w); err == nil {
 			e.Workers = n
@@ -173,8 +244,17 @@ func (n *nativeRunner) build(rel string) (string, error) {
 	if b, ok := n.bins[rel]; ok {
 		return b, nil
 	}
-	files, funcs, err := harnessFiles(rel)
+	nativeMode = true
+	defer func() { nativeMode = false }()
+	_, funcs, err := harnessFiles(rel)
 	if err != nil {
+		return "", err
+	}
+	files, err := allOverlayFiles()
+	if err != nil {
+		return "", err
+	}
+	if err := applyNativeRewrites(files); err != nil {
 		return "", err
 	}
 	name, _ := pkgName(rel)
@@ -189,7 +269,7 @@ func (n *nativeRunner) build(rel string) (string, error) {
 	sub := filepath.Join(n.dir, strings.ReplaceAll(rel, "/", "_"))
 	os.MkdirAll(sub, 0o755)
 	for virt, content := range files {
-		real := filepath.Join(sub, filepath.Base(virt))
+		real := filepath.Join(sub, strings.ReplaceAll(strings.TrimPrefix(virt, repoDir+"/"), "/", "__"))
 		if err := os.WriteFile(real, content, 0o644); err != nil {
 			return "", err
 		}
@@ -375,6 +455,12 @@ func cmdHarness(args []string) int {
 	if err != nil {
 		fmt.Fprintln(os.Stderr, err)
 		return 2
+	}
+	if p := os.Getenv("VERIF_JSON_OUT"); p != "" {
+		b, _ := json.MarshalIndent(res, "", " ")
+		os.WriteFile(p, b, 0o644)
+		printResult(res, false)
+		return 0
 	}
 	printResult(res, true)
 	return 0
